@@ -236,7 +236,8 @@ pub fn run_play(args: &Args) {
 pub fn run_fens(args: &Args) {
     let fens = read_lines(args.req("fens"));
     let mut out = open_out(args.req("out"));
-    let succ = args.num("succ", 1) == 1;
+    let succ_depth = args.num("succ", 1);
+    let succ = succ_depth >= 1;
     for fen in fens {
         let r: Result<(), String> = (|| {
             let mut g = match guard(|| Game::new(&fen))? {
@@ -253,6 +254,16 @@ pub fn run_fens(args: &Args) {
                 for m in ps {
                     guard(|| g.push(m))?;
                     emit(&mut out, json!({"ev": "push", "mv": m.uci_notation(), "hist": false, "o": obs::raw(&g)}));
+                    if succ_depth >= 2 {
+                        // one ply deeper: every reply to every move (a move right after a particular move)
+                        let replies = guard(|| obs::gen(&mut g, false))?;
+                        for r in replies {
+                            guard(|| g.push(r))?;
+                            emit(&mut out, json!({"ev": "push", "mv": r.uci_notation(), "hist": false, "o": obs::raw(&g)}));
+                            guard(|| g.pop(r))?;
+                            emit(&mut out, json!({"ev": "pop", "o": obs::raw(&g)}));
+                        }
+                    }
                     guard(|| g.pop(m))?;
                     emit(&mut out, json!({"ev": "pop", "o": obs::raw(&g)}));
                 }
